@@ -578,4 +578,3 @@ package protocol
 //@   loop 0:
 //@     invariant 0 <= i && i <= n && n == len(h)
 //@     invariant forall(k, 0, len(h), h[k].noValue == old(h[k].noValue) && sameSlice(h[k].value, old(h[k].value)))
-
